@@ -170,7 +170,7 @@ def replay_doc(cfg, inp, out):
             warnings.simplefilter("ignore")
             ev = ae._convert_to_ev(doc, offset, period, voltage, pw, max_len, bp, ff)
     except Exception as e:  # noqa
-        if cfg["bp"] == "fit" and out["batt"].get("mustfit") and cfg["ff"]:
+        if cfg["bp"] == "fit" and out["batt"].get("mustfit") and (cfg["ff"] or out["req"] == 0):
             # the request is exactly what force_feasible capped it to, and a menu battery holds it in its linear stage
             # (BoundaryFits in EventGen.tla): refusing the session is not an answer
             return {"field": "fit-refuses-force-feasible-request", "spec": "a session whose battery takes the capped request",
@@ -270,13 +270,22 @@ def row_args(cfg):
     return cfg["P"], cfg["V"], cfg["pw"] / 1000.0, max_len, bp, cfg["ff"], probe
 
 
+def int_matrix_if_whole(m):
+    """A sample matrix whose entries are all whole numbers (a timetable in whole hours and whole kWh) is handed over
+    with an integer dtype: the values are the same, so the sessions are."""
+    import numpy as np
+    if m.size and np.all(m == np.floor(m)):
+        return m.astype(np.int64)
+    return m
+
+
 def replay_row(cfg, inp, out):
     import numpy as np
     from acnportal.acnsim.events.stochastic_events import StochasticEvents
     if not row_decisive(cfg, inp, out):
         return "non-decisive"
     period, voltage, pw, max_len, bp, ff, probe = row_args(cfg)
-    m = np.array([[inp["arr"] / 600.0 + 24 * inp["day"], inp["dur"] / 600.0, inp["e"] / ROW_KWH]])
+    m = int_matrix_if_whole(np.array([[inp["arr"] / 600.0 + 24 * inp["day"], inp["dur"] / 600.0, inp["e"] / ROW_KWH]]))
     try:
         with warnings.catch_warnings(), contextlib.redirect_stdout(io.StringIO()):
             warnings.simplefilter("ignore")
@@ -299,8 +308,8 @@ def replay_row_group(cfg, cases):
     days = sorted({x["inp"]["day"] for x in cases})
     per_day = [[x for x in cases if x["inp"]["day"] == d] for d in range(days[-1] + 1)]
     order = [x for day in per_day for x in day]
-    mats = [np.array([[x["inp"]["arr"] / 600.0, x["inp"]["dur"] / 600.0, x["inp"]["e"] / ROW_KWH] for x in day])
-            for day in per_day if day]
+    mats = [int_matrix_if_whole(np.array([[x["inp"]["arr"] / 600.0, x["inp"]["dur"] / 600.0, x["inp"]["e"] / ROW_KWH]
+                                           for x in day])) for day in per_day if day]
 
     class Fixed(StochasticEvents):
         def sample(self, n_samples):
